@@ -183,9 +183,10 @@ def writeChromX (rm : Bool) (cfg : Cfg) : Option Nat → List Record → List Ou
   | _, [] => []
   | prev, r :: rs => let o := writeRecordX rm cfg prev r; o :: writeChromX rm cfg o.prev rs
 
-/-- the chromosome loop of `run_whatshap`: `cfgOf chrom` carries the targets of that chromosome (none at all for a
-    chromosome that `--chromosome` did not request: `vcf_writer.write(chromosome, {}, {})`) -/
-def writeFile (cfgOf : String → Cfg) (groups : List (String × List Record)) : List (String × List Record) :=
-  groups.map fun (chrom, rs) => (chrom, outRecords (writeChromX true (cfgOf chrom) none rs))
+/-- the chromosome loop of `run_whatshap`: one `write` call per table of the variant file (= per run of records with the
+    same chromosome); the `Cfg` of a run carries its targets (none at all for a chromosome that `--chromosome` did not
+    request: `vcf_writer.write(chromosome, {}, {})`) -/
+def writeFile (groups : List (String × Cfg × List Record)) : List (String × List Record) :=
+  groups.map fun (chrom, cfg, rs) => (chrom, outRecords (writeChromX true cfg none rs))
 
 end WhVerif.C09
